@@ -297,6 +297,29 @@ Proof.
 Qed.
 End LBody.
 
+(* the two blocks of one iteration commute when they concern different lines *)
+Lemma lbody_swap kp k nv C1 C2 s1z s1x s2z s2x p1a p1b a1 b1 p2a p2b a2 b2 s :
+  0 <= a1 < nz /\ 0 <= b1 < nx /\ 0 <= p1a < nz /\ 0 <= p1b < nx ->
+  0 <= a2 < nz /\ 0 <= b2 < nx /\ 0 <= p2a < nz /\ 0 <= p2b < nx ->
+  (a1 <> a2 \/ b1 <> b2) -> (a1 <> p2a \/ b1 <> p2b) -> (a2 <> p1a \/ b2 <> p1b) -> good s ->
+  agree Top Top (lbody kp k nv C1 C2 s1z s1x s2z s2x p1a p1b a1 b1 p2a p2b a2 b2 s)
+                (lbody kp k nv C2 C1 s2z s2x s1z s1x p2a p2b a2 b2 p1a p1b a1 b1 s) /\
+  tdo (lbody kp k nv C1 C2 s1z s1x s2z s2x p1a p1b a1 b1 p2a p2b a2 b2 s) =
+  tdo (lbody kp k nv C2 C1 s2z s2x s1z s1x p2a p2b a2 b2 p1a p1b a1 b1 s).
+Proof.
+  intros (? & ? & ? & ?) (? & ? & ? & ?) N12 N1 N2 Hs. split; [|reflexivity].
+  unfold lbody. cbv zeta.
+  match goal with |- agree _ _ (cstep ?f2 ?v2 _ _ _ _ _ _ ?t (cstep ?f1 ?v1 _ _ _ _ _ _ _ ?s0)) _ =>
+    apply (Foot_commute _ _ _ _ (cstep f1 v1 s1z s1x p1a p1b a1 b1 t) (cstep f2 v2 s2z s2x p2a p2b a2 b2 t)
+             (cstep_foot f1 v1 s1z s1x p1a p1b a1 b1 t ltac:(assumption) ltac:(assumption) ltac:(assumption) ltac:(assumption))
+             (cstep_foot f2 v2 s2z s2x p2a p2b a2 b2 t ltac:(assumption) ltac:(assumption) ltac:(assumption) ltac:(assumption)))
+  end.
+  - intros i j _ _ Y. lia.
+  - intros i j _ _ Y. lia.
+  - intros i j _ _. destruct (Z.eq_dec i a1), (Z.eq_dec j b1); [right | left | left | left]; lia.
+  - apply good_seed, Hs.
+Qed.
+
 (* ---------- a loop of such iterations; `jp k` is the scratch-line entry read by iteration `k` ---------- *)
 Fixpoint chain (jp : Z -> Z) (p : Z) (l : list Z) : Prop :=
   match l with [] => True | k :: l' => jp k = p /\ chain jp k l' end.
@@ -682,19 +705,19 @@ Notation E := (east_phase dx dz grad nx slow vzero xsa xsi zsa zsi dzu dzd dxe).
 Notation W := (west_phase dx dz grad slow vzero xsa xsi zsa zsi dzu dzd dxw).
 Notation D := (down_phase dx dz grad nz slow vzero xsa xsi zsa zsi dxw dxe dzd).
 Notation U := (up_phase dx dz grad slow vzero xsa xsi zsa zsi dxw dxe dzu).
-Notation WE := (WE zsi xsi). Notation RE := (RE zsi xsi).
-Notation WW := (WW zsi xsi). Notation RW := (RW zsi xsi).
-Notation WD := (WD zsi xsi). Notation RD := (RD zsi xsi).
-Notation WU := (WU zsi xsi). Notation RU := (RU zsi xsi).
+Notation wE := (WE zsi xsi). Notation rE := (RE zsi xsi).
+Notation wW := (WW zsi xsi). Notation rW := (RW zsi xsi).
+Notation wD := (WD zsi xsi). Notation rD := (RD zsi xsi).
+Notation wU := (WU zsi xsi). Notation rU := (RU zsi xsi).
 
-Lemma E_foot : Foot WE RE E. Proof. apply east_foot; assumption. Qed.
-Lemma W_foot : Foot WW RW W. Proof. apply west_foot; assumption. Qed.
-Lemma D_foot : Foot WD RD D. Proof. apply down_foot; assumption. Qed.
-Lemma U_foot : Foot WU RU U. Proof. apply up_foot; assumption. Qed.
+Lemma E_foot : Foot wE rE E. Proof. apply east_foot; assumption. Qed.
+Lemma W_foot : Foot wW rW W. Proof. apply west_foot; assumption. Qed.
+Lemma D_foot : Foot wD rD D. Proof. apply down_foot; assumption. Qed.
+Lemma U_foot : Foot wU rU U. Proof. apply up_foot; assumption. Qed.
 
-Lemma X_foot : Foot (fun i j => WE i j \/ WW i j) (fun i j => RE i j \/ RW i j) (fun s => W (E s)).
+Lemma X_foot : Foot (fun i j => wE i j \/ wW i j) (fun i j => rE i j \/ rW i j) (fun s => W (E s)).
 Proof. apply (Foot_comp _ _ _ _ _ _ _ _ E W E_foot W_foot). Qed.
-Lemma Z_foot : Foot (fun i j => WD i j \/ WU i j) (fun i j => RD i j \/ RU i j) (fun s => U (D s)).
+Lemma Z_foot : Foot (fun i j => wD i j \/ wU i j) (fun i j => rD i j \/ rU i j) (fun s => U (D s)).
 Proof. apply (Foot_comp _ _ _ _ _ _ _ _ D U D_foot U_foot). Qed.
 
 (* (ii) THE X-PHASES AND THE Z-PHASES COMMUTE on the time and sign arrays.  (The scratch line `td` is not compared:
@@ -702,7 +725,7 @@ Proof. apply (Foot_comp _ _ _ _ _ _ _ _ D U D_foot U_foot). Qed.
 Theorem x_z_commute s : good s -> agree Top Top (U (D (W (E s)))) (W (E (U (D s)))).
 Proof.
   apply (Foot_commute _ _ _ _ _ _ _ _ (fun s => W (E s)) (fun s => U (D s)) X_foot Z_foot);
-    unfold InitEquiv.WE, InitEquiv.RE, InitEquiv.WW, InitEquiv.RW, InitEquiv.WD, InitEquiv.RD, InitEquiv.WU, InitEquiv.RU, OnR, OnC.
+    unfold WE, RE, WW, RW, WD, RD, WU, RU, OnR, OnC.
   - intros i j _ _ Y. lia.
   - intros i j _ _ Y. lia.
   - intros i j _ _. destruct (Z_le_gt_dec zsi i), (Z_le_gt_dec i (zsi + 1)); [right | left | left | left]; lia.
@@ -710,7 +733,7 @@ Qed.
 Theorem east_west_commute s : good s -> agree Top Top (W (E s)) (E (W s)).
 Proof.
   apply (Foot_commute _ _ _ _ _ _ _ _ E W E_foot W_foot);
-    unfold InitEquiv.WE, InitEquiv.RE, InitEquiv.WW, InitEquiv.RW, OnR.
+    unfold WE, RE, WW, RW, OnR.
   - intros i j _ _ Y. lia.
   - intros i j _ _ Y. lia.
   - intros i j _ _. destruct (Z_le_gt_dec j xsi); [left | right]; lia.
@@ -718,7 +741,7 @@ Qed.
 Theorem down_up_commute s : good s -> agree Top Top (U (D s)) (D (U s)).
 Proof.
   apply (Foot_commute _ _ _ _ _ _ _ _ D U D_foot U_foot);
-    unfold InitEquiv.WD, InitEquiv.RD, InitEquiv.WU, InitEquiv.RU, OnC.
+    unfold WD, RD, WU, RU, OnC.
   - intros i j _ _ Y. lia.
   - intros i j _ _ Y. lia.
   - intros i j _ _. destruct (Z_le_gt_dec i zsi); [left | right]; lia.
@@ -1037,7 +1060,13 @@ Lemma good_up nz nx M grad (dx dz : R) slow (vzero xsa : R) xsi (zsa : R) zsi (d
   good nz nx M grad (up_phase dx dz grad slow vzero xsa xsi zsa zsi dxw dxe dzu s).
 Proof. intros HM Hz Hx. apply (up_foot nz nx M grad dx dz slow vzero xsa zsa zsi xsi HM Hz Hx dxw dxe dzu). Qed.
 Ltac gd :=
-  repeat first [ assumption | apply good_east | apply good_west | apply good_down | apply good_up ]; try lia.
+  repeat match goal with
+  | |- good _ _ _ _ (east_phase _ _ _ _ _ _ _ _ _ _ _ _ _ _) => apply good_east
+  | |- good _ _ _ _ (west_phase _ _ _ _ _ _ _ _ _ _ _ _ _) => apply good_west
+  | |- good _ _ _ _ (down_phase _ _ _ _ _ _ _ _ _ _ _ _ _ _) => apply good_down
+  | |- good _ _ _ _ (up_phase _ _ _ _ _ _ _ _ _ _ _ _ _) => apply good_up
+  | |- good _ _ _ _ _ => assumption
+  end; try lia.
 
 Section Transpose.
 Variables (nz nx M M' : Z) (grad : bool).
@@ -1097,3 +1126,754 @@ Proof.
   - apply agree_sym. apply (phases_xz nx nz M'); assumption.
 Qed.
 End Transpose.
+
+Lemma isC_swap zsi xsi p q : isC xsi zsi q p = isC zsi xsi p q.
+Proof. unfold isC. apply andb_comm. Qed.
+Lemma t_anad_swap_parts i j (dz dx zsa xsa v : R) :
+  fst (fst (t_anad j i dx dz xsa zsa v)) = fst (fst (t_anad i j dz dx zsa xsa v)) /\
+  snd (t_anad j i dx dz xsa zsa v) = snd (fst (t_anad i j dz dx zsa xsa v)) /\
+  snd (fst (t_anad j i dx dz xsa zsa v)) = snd (t_anad i j dz dx zsa xsa v).
+Proof.
+  rewrite (t_anad_swap i j dz dx zsa xsa v). destruct (t_anad j i dx dz xsa zsa v) as [[a b] c]. cbn [fst snd]. auto.
+Qed.
+
+Lemma corners_transpose nz nx (dx dz : R) grad (vzero xsa : R) xsi (zsa : R) zsi tt tt' tg tg' :
+  0 <= zsi < nz - 1 -> 0 <= xsi < nx - 1 -> okT nz nx tt -> okT nx nz tt' -> RelTTt nz nx tt tt' ->
+  (grad = true -> okG nz nx tg /\ okG nx nz tg' /\ RelGRt nz nx tg tg') ->
+  let c := init_corners dx dz grad vzero xsa xsi zsa zsi tt tg in
+  let c' := init_corners dz dx grad vzero zsa zsi xsa xsi tt' tg' in
+  okT nz nx (fst c) /\ okT nx nz (fst c') /\ RelTTt nz nx (fst c) (fst c') /\
+  (grad = true -> okG nz nx (snd c) /\ okG nx nz (snd c') /\ RelGRt nz nx (snd c) (snd c')).
+Proof.
+  intros Hz Hx Ht Ht' HT HG c c'.
+  destruct (init_corners_tt nz nx dx dz grad vzero xsa xsi zsa zsi tt tg Ht Hz Hx) as [O1 G1].
+  destruct (init_corners_tt nx nz dz dx grad vzero zsa zsi xsa xsi tt' tg' Ht' Hx Hz) as [O1' G1'].
+  fold c in O1, G1. fold c' in O1', G1'.
+  split; [exact O1|]. split; [exact O1'|]. split.
+  - apply RelTTt_intro; [exact O1 | exact O1'|]. intros i j Hi Hj.
+    rewrite (G1 i j Hi Hj), (G1' j i Hj Hi), isC_swap.
+    destruct (t_anad_swap_parts i j dz dx zsa xsa vzero) as (-> & _ & _).
+    rewrite (relTTt_get nz nx tt tt' i j HT Hi Hj). reflexivity.
+  - intros Hg. destruct (HG Hg) as (Og & Og' & HR). subst c c'. rewrite Hg.
+    destruct (init_corners_tg nz nx dx dz vzero xsa xsi zsa zsi tt tg Og Hz Hx) as [O2 G2].
+    destruct (init_corners_tg nx nz dz dx vzero zsa zsi xsa xsi tt' tg' Og' Hx Hz) as [O2' G2'].
+    split; [exact O2|]. split; [exact O2'|].
+    apply RelGRt_intro; [exact O2 | exact O2'|]. intros i j k Hi Hj Hk.
+    rewrite (G2 i j k Hi Hj Hk), (G2' j i (1 - k) Hj Hi ltac:(lia)), isC_swap.
+    destruct (t_anad_swap_parts i j dz dx zsa xsa vzero) as (_ & -> & ->).
+    rewrite (relGRt_get nz nx tg tg' i j k HR Hi Hj Hk).
+    destruct (isC zsi xsi i j); [|reflexivity].
+    destruct (Z.eqb_spec k 0) as [->|N]; [reflexivity|]. replace k with 1 by lia. reflexivity.
+Qed.
+
+Lemma okD_full M : 0 <= M -> okD M (full [M] (@Big R NumR)).
+Proof. intros H. split; [apply wf_full; repeat constructor; exact H | reflexivity]. Qed.
+
+(* shapes are preserved by the block *)
+Lemma fteik2d_p2_shapes nz nx (dx dz : R) grad iflag slow tt tg sg (vzero xsa : R) xsi (zsa : R) zsi :
+  (iflag = 2 -> 0 <= zsi < nz - 1 /\ 0 <= xsi < nx - 1) ->
+  okT nz nx tt -> (grad = true -> okG nz nx tg /\ okS nz nx sg) ->
+  let r := fteik2d_p2 dx dz grad iflag nx nz slow tt tg sg vzero xsa xsi zsa zsi in
+  okT nz nx (fst (fst r)) /\ (grad = true -> okG nz nx (snd (fst r)) /\ okS nz nx (snd r)).
+Proof.
+  intros H2 Ht Hg r. subst r. destruct (Z.eq_dec iflag 2) as [->|N].
+  - destruct (H2 eq_refl) as [Hz Hx]. rewrite fteik2d_p2_phases. cbv zeta. cbn [fst snd].
+    destruct (init_corners_tt nz nx dx dz grad vzero xsa xsi zsa zsi tt tg Ht Hz Hx) as [O1 _].
+    match goal with |- context [phases ?a1 ?a2 ?a3 ?a4 ?a5 ?a6 ?a7 ?a8 ?a9 ?a10 ?a11 ?a12 ?a13 ?a14 ?a15 ?s0] =>
+      assert (G : good nz nx (Z.max nz nx) grad (phases a1 a2 a3 a4 a5 a6 a7 a8 a9 a10 a11 a12 a13 a14 a15 s0)) end.
+    { apply phases_good; try lia. split; [apply okD_full; lia|]. split; [exact O1|]. intros Hgr. apply Hg, Hgr. }
+    destruct G as (_ & Gt & Gs). split; [exact Gt|]. intros Hgr. split; [|apply Gs, Hgr].
+    destruct (Hg Hgr) as [Og _]. rewrite Hgr. apply (init_corners_tg nz nx); assumption.
+  - rewrite fteik2d_p2_decompose. apply Z.eqb_neq in N. rewrite N. cbn [fst snd].
+    split; [apply okT_set, Ht | exact Hg].
+Qed.
+
+(* (iv) THE BLOCK ON THE TRANSPOSED PROBLEM GIVES THE TRANSPOSE, for every `iflag` (for `iflag <> 2` the single node
+   written must be a node of the grid) *)
+Theorem fteik2d_p2_transpose nz nx (dx dz : R) grad iflag slow slow' tt tt' tg tg' sg sg' (vzero xsa : R) xsi (zsa : R) zsi :
+  (iflag = 2 -> 0 <= zsi < nz - 1 /\ 0 <= xsi < nx - 1) ->
+  (iflag <> 2 -> 0 <= ntrunc zsa < nz /\ 0 <= ntrunc xsa < nx) ->
+  okT nz nx tt -> okT nx nz tt' ->
+  (grad = true -> okG nz nx tg /\ okG nx nz tg' /\ okS nz nx sg /\ okS nx nz sg') ->
+  RelSLt nz nx slow slow' -> RelTTt nz nx tt tt' ->
+  (grad = true -> RelGRt nz nx tg tg' /\ RelSGt nz nx sg sg') ->
+  let r := fteik2d_p2 dx dz grad iflag nx nz slow tt tg sg vzero xsa xsi zsa zsi in
+  let r' := fteik2d_p2 dz dx grad iflag nz nx slow' tt' tg' sg' vzero zsa zsi xsa xsi in
+  RelTTt nz nx (fst (fst r)) (fst (fst r')) /\
+  (grad = true -> RelGRt nz nx (snd (fst r)) (snd (fst r')) /\ RelSGt nz nx (snd r) (snd r')).
+Proof.
+  intros H2 Hn Ht Ht' Hok HSL HT HR r r'. subst r r'. destruct (Z.eq_dec iflag 2) as [->|N].
+  - destruct (H2 eq_refl) as [Hz Hx]. rewrite !fteik2d_p2_phases. cbv zeta. cbn [fst snd].
+    destruct (corners_transpose nz nx dx dz grad vzero xsa xsi zsa zsi tt tt' tg tg' Hz Hx Ht Ht' HT) as (O1 & O1' & HC & HGc).
+    { intros Hg. destruct (Hok Hg) as (? & ? & _), (HR Hg) as [? _]. auto. }
+    match goal with |- context [phases dx dz grad nx nz slow vzero xsa xsi zsa zsi ?dzu ?dzd ?dxw ?dxe ?s0] =>
+      match goal with |- context [phases dz dx grad nz nx slow' vzero zsa zsi xsa xsi _ _ _ _ ?s0'] =>
+        pose proof (phases_transpose nz nx (Z.max nz nx) (Z.max nx nz) grad dx dz slow slow' vzero xsa zsa zsi xsi
+                      dzu dzd dxw dxe ltac:(lia) ltac:(lia) Hz Hx HSL s0 s0') as PT end end.
+    destruct PT as [PT1 PT2].
+    + split; [apply okD_full; lia|]. split; [exact O1|]. intros Hg. apply (Hok Hg).
+    + split; [apply okD_full; lia|]. split; [exact O1'|]. intros Hg. apply (Hok Hg).
+    + split; [exact HC|]. intros Hg. apply (HR Hg).
+    + split; [exact PT1|]. intros Hg. split; [apply (HGc Hg) | apply (PT2 Hg)].
+  - rewrite !fteik2d_p2_decompose. apply Z.eqb_neq in N. rewrite N. cbn [fst snd].
+    destruct (Hn ltac:(lia)) as [Bz Bx]. split; [|exact HR].
+    apply relTTt_set; assumption.
+Qed.
+
+(* the maps of the statement; `transpose`, `transpose_sgn` are those of InitSym *)
+Definition transpose_grad (nz nx : Z) (g : arr R) : arr R := tab3 nx nz 2 (fun j i k => get 0%R g [i; j; 1 - k]).
+
+Lemma okT_transpose nz nx a : 0 <= nz -> 0 <= nx -> okT nx nz (transpose nz nx a).
+Proof. intros. split; [apply wf_tab2; lia | reflexivity]. Qed.
+Lemma okS_transpose_sgn nz nx a : 0 <= nz -> 0 <= nx -> okS nx nz (transpose_sgn nz nx a).
+Proof. intros. split; [apply wf_tab3; lia | reflexivity]. Qed.
+Lemma okG_transpose_grad nz nx a : 0 <= nz -> 0 <= nx -> okG nx nz (transpose_grad nz nx a).
+Proof. intros. split; [apply wf_tab3; lia | reflexivity]. Qed.
+Lemma okT_nonneg nz nx a : okT nz nx a -> 0 <= nz /\ 0 <= nx.
+Proof. intros [[_ F] S]. rewrite S in F. inversion F as [|? ? ? F']; inversion F'; auto. Qed.
+Lemma transpose_grad_rel nz nx g : okG nz nx g -> RelGRt nz nx g (transpose_grad nz nx g).
+Proof.
+  intros Og. pose proof Og as [W S]. destruct (shape3_nonneg g _ _ _ W S).
+  apply RelGRt_intro; [exact Og | apply okG_transpose_grad; assumption|].
+  intros i j k Hi Hj Hk. unfold transpose_grad. rewrite get_tab3 by lia. rewrite ftr3_invol. reflexivity.
+Qed.
+
+(* EXPLICIT FORM: run the block on the transposed data (spacings, sizes, source coordinates and source cell
+   exchanged) and read the result transposed.  When `grad = false` the gradient and sign arrays are not touched
+   (they are empty in `fteik2d`), so nothing is asked of `tg'`, `sg'`. *)
+Theorem fteik2d_p2_transpose_explicit nz nx (dx dz : R) grad iflag slow tt tg tg' sg sg' (vzero xsa : R) xsi (zsa : R) zsi :
+  (iflag = 2 -> 0 <= zsi < nz - 1 /\ 0 <= xsi < nx - 1) ->
+  (iflag <> 2 -> 0 <= ntrunc zsa < nz /\ 0 <= ntrunc xsa < nx) ->
+  wf slow -> shape slow = [nz - 1; nx - 1] -> okT nz nx tt ->
+  (grad = true -> okG nz nx tg /\ okS nz nx sg /\ tg' = transpose_grad nz nx tg /\ sg' = transpose_sgn nz nx sg) ->
+  let r := fteik2d_p2 dx dz grad iflag nx nz slow tt tg sg vzero xsa xsi zsa zsi in
+  let r' := fteik2d_p2 dz dx grad iflag nz nx (transpose (nz - 1) (nx - 1) slow) (transpose nz nx tt) tg' sg'
+              vzero zsa zsi xsa xsi in
+  (forall i j, 0 <= i < nz -> 0 <= j < nx -> get 0%R (fst (fst r')) [j; i] = get 0%R (fst (fst r)) [i; j]) /\
+  (grad = true -> forall i j, 0 <= i < nz -> 0 <= j < nx ->
+     get 0%R (snd (fst r')) [j; i; 1] = get 0%R (snd (fst r)) [i; j; 0] /\
+     get 0%R (snd (fst r')) [j; i; 0] = get 0%R (snd (fst r)) [i; j; 1] /\
+     get 0 (snd r') [j; i; 1] = get 0 (snd r) [i; j; 0] /\
+     get 0 (snd r') [j; i; 0] = get 0 (snd r) [i; j; 1]).
+Proof.
+  intros H2 Hn Wsl Ssl Ht Hg r r'. destruct (okT_nonneg _ _ _ Ht) as [N1 N2]. pose proof Ht as [Wt St].
+  destruct (fteik2d_p2_transpose nz nx dx dz grad iflag slow (transpose (nz - 1) (nx - 1) slow) tt (transpose nz nx tt)
+              tg tg' sg sg' vzero xsa xsi zsa zsi H2 Hn Ht) as [HT HR].
+  - apply okT_transpose; assumption.
+  - intros G. destruct (Hg G) as (? & ? & -> & ->).
+    split; [assumption|]. split; [apply okG_transpose_grad; lia|]. split; [assumption | apply okS_transpose_sgn; lia].
+  - apply transpose_slow_rel; assumption.
+  - apply transpose_rel; assumption.
+  - intros G. destruct (Hg G) as (Og & [Ws Ss] & -> & ->). split; [apply transpose_grad_rel, Og | apply transpose_sgn_rel; assumption].
+  - fold r r' in HT, HR. clearbody r r'. split.
+    + intros i j Hi Hj. apply (relTTt_get nz nx _ _ i j HT Hi Hj).
+    + intros G i j Hi Hj. destruct (HR G) as [HG HS].
+      pose proof (relGRt_get nz nx _ _ i j 0 HG Hi Hj ltac:(lia)) as Q0.
+      pose proof (relGRt_get nz nx _ _ i j 1 HG Hi Hj ltac:(lia)) as Q1.
+      pose proof (relSGt_get nz nx _ _ i j 0 HS Hi Hj ltac:(lia)) as Q2.
+      pose proof (relSGt_get nz nx _ _ i j 1 HS Hi Hj ltac:(lia)) as Q3.
+      repeat split; assumption.
+Qed.
+
+(* ========================================================================================== *)
+(* 7. X-MIRROR of the whole initialisation                                                      *)
+(* ========================================================================================== *)
+(* 7.1 the down / up phases under the x-mirror: a pairing that InitSym does not have.  A z-block at column `col`
+   on the mirrored problem is the mirror of the z-block at column nx-1-col, with the sign of x exchanged. *)
+Lemma blk_z_mirror_x nz nx (dx dz : R) grad (vzero xsa xsa' zsa dzi dz2i : R) col col' (dxw : R) sgz sgx ip i
+      (vref taue tauev : R) (td td' tt tt' : arr R) (sg sg' : arr Z) :
+  RelTTx nz nx tt tt' -> (grad = true -> RelSGx nz nx sg sg') ->
+  0 <= col < nx -> 0 <= i < nz -> 0 <= ip < nz -> col' = nx - 1 - col ->
+  xsa' = (IZR (nx - 1) - xsa)%R ->
+  get 0%R td' [i] = get 0%R td [i] ->
+  let r := blk_z dx dz grad vzero xsa zsa dzi dz2i col dxw sgz sgx ip i vref taue tauev td tt sg in
+  let r' := blk_z dx dz grad vzero xsa' zsa dzi dz2i col' dxw sgz (- sgx) ip i vref taue tauev td' tt' sg' in
+  RelTTx nz nx (fst r) (fst r') /\ (grad = true -> RelSGx nz nx (snd r) (snd r')).
+Proof.
+  intros HT HS Hcol Hi Hip Ec Exsa Htd r r'. subst r r'. unfold blk_z. cbv zeta.
+  assert (G1 : get 0%R tt' [ip; col'] = get 0%R tt [ip; col]) by (eapply relTTx_get; eauto).
+  assert (G2 : get 0%R tt' [i; col'] = get 0%R tt [i; col]) by (eapply relTTx_get; eauto).
+  assert (C : (IZR col' - xsa' = - (IZR col - xsa))%R) by (subst col' xsa'; apply mir_coord).
+  change (@nofZ R NumR 0) with 0%R.
+  rewrite G1, G2, Htd.
+  rewrite (t_ana_mirror_x ip col col' dz dx zsa xsa xsa' vzero C).
+  rewrite (t_anad_mirror_x i col col' dz dx zsa xsa xsa' vzero C).
+  destruct (t_anad i col dz dx zsa xsa vzero) as [[t0c tzc] txc]. cbn [fst snd].
+  rewrite delta_mirror_x.
+  match goal with |- context [if ?c then _ else _] => destruct c end; [|split; [exact HT | exact HS]].
+  match goal with |- context [if ?c then _ else _] => destruct c end; cbn [fst snd]; [|split; [exact HT | exact HS]].
+  split.
+  - apply relTTx_set; assumption.
+  - intros Hg. rewrite Hg. apply relSGx_set2; auto.
+Qed.
+
+(* the z-loop body with its two blocks exchanged *)
+Definition zbody_sw (ip vr : Z -> Z) (adj : R -> R) (sgz : Z) (dx dz : R) (grad : bool) (slow : arr R) (vzero xsa zsa : R)
+    (xsi : Z) (dxw dxe dzi dz2i : R) (i : Z) (u_s_v : St) : St :=
+let td := (fst (fst u_s_v)) in
+let tt_v := (snd (fst u_s_v)) in
+let ttsgn := (snd u_s_v) in
+let vref := (get (nofZ 0) slow [vr i; xsi]) in
+let td := (set td [i] (nadd (get (nofZ 0) td [ip i]) (nmul dz vref))) in
+let taue := (nsub (get (nofZ 0) td [i]) (nmul (nmul vzero (nabs (nsub (nofZ i) zsa))) dz)) in
+let tauev := (nsub (get (nofZ 0) td [ip i]) (nmul (nmul vzero (nabs (adj (nsub (nofZ i) zsa)))) dz)) in
+let u_j_v : ((arr R) * (arr Z)) :=
+  blk_z dx dz grad vzero xsa zsa dzi dz2i xsi dxw sgz (-1) (ip i) i vref taue tauev td tt_v ttsgn in
+let tt_v := (fst u_j_v) in
+let ttsgn := (snd u_j_v) in
+let u_j_v : ((arr R) * (arr Z)) :=
+  blk_z dx dz grad vzero xsa zsa dzi dz2i (xsi + 1) dxe sgz 1 (ip i) i vref taue tauev td tt_v ttsgn in
+let tt_v := (fst u_j_v) in
+let ttsgn := (snd u_j_v) in
+(td, tt_v, ttsgn).
+
+Lemma zbody_sw_l ip vr adj sgz (dx dz : R) grad slow (vzero xsa zsa : R) xsi (dxw dxe dzi dz2i : R) i s :
+  zbody_sw ip vr adj sgz dx dz grad slow vzero xsa zsa xsi dxw dxe dzi dz2i i s =
+  let vref := get 0%R slow [vr i; xsi] in
+  let taue := fun tk : R => nsub tk (nmul (nmul vzero (nabs (nsub (nofZ i) zsa))) dz) in
+  let tauev := fun tp : R => nsub tp (nmul (nmul vzero (nabs (adj (nsub (nofZ i) zsa)))) dz) in
+  lbody grad (ip i) i (fun t => nadd t (nmul dz vref))
+    (fun tk tp => (cfz dx dz vzero xsa zsa dzi dz2i xsi dxw sgz (-1) (ip i) i vref (taue tk) (tauev tp),
+                   tnz dx dz vzero xsa zsa dzi dz2i xsi dxw sgz (-1) (ip i) i vref (taue tk) (tauev tp)))
+    (fun tk tp => (cfz dx dz vzero xsa zsa dzi dz2i (xsi + 1) dxe sgz 1 (ip i) i vref (taue tk) (tauev tp),
+                   tnz dx dz vzero xsa zsa dzi dz2i (xsi + 1) dxe sgz 1 (ip i) i vref (taue tk) (tauev tp)))
+    sgz (-1) sgz 1 (ip i) xsi i xsi (ip i) (xsi + 1) i (xsi + 1) s.
+Proof.
+  destruct s as [[td tt] sg]. unfold zbody_sw, lbody, cstep. cbv beta zeta. cbn [fst snd tdo tto sgo].
+  rewrite !blk_z_upd. reflexivity.
+Qed.
+
+Definition SimMx (nz nx M M' : Z) (grad : bool) (p : Z) (s s' : St) : Prop :=
+  good nz nx M grad s /\ good nz nx M' grad s' /\ get 0%R (tdo s') [p] = get 0%R (tdo s) [p] /\ XRelS nz nx grad s s'.
+
+Section ZMirrorX.
+Variables (nz nx M M' : Z) (grad : bool) (ip vr : Z -> Z) (adj : R -> R) (sgz : Z).
+Variables (dx dz : R) (slow slow' : arr R) (vzero xsa xsa' zsa : R) (xsi xsi' : Z) (dxw dxe dzi dz2i : R).
+Hypothesis HSL : RelSLx nz nx slow slow'.
+Hypothesis HM : nz <= M /\ nz <= M'.
+Hypothesis Hxsi : 0 <= xsi < nx - 1.
+Hypothesis Exsa : xsa' = (IZR (nx - 1) - xsa)%R.
+Hypothesis Exsi : xsi' = nx - 2 - xsi.
+
+Definition PZ (i : Z) : Prop := 0 <= i < nz /\ 0 <= ip i < nz /\ ip i <> i /\ 0 <= vr i < nz - 1.
+
+Notation B := (zbody ip vr adj sgz dx dz grad slow vzero xsa zsa xsi dxw dxe dzi dz2i).
+Notation Bsw := (zbody_sw ip vr adj sgz dx dz grad slow vzero xsa zsa xsi dxw dxe dzi dz2i).
+(* on the mirrored problem the fractional distances dxw and dxe are exchanged *)
+Notation B' := (zbody ip vr adj sgz dx dz grad slow' vzero xsa' zsa xsi' dxe dxw dzi dz2i).
+
+Lemma zbody_good_o i s : PZ i -> good nz nx M grad s -> good nz nx M grad (B i s).
+Proof. intros (P1 & P2 & P3 & P4) Hs. rewrite zbody_l. cbv zeta. apply lbody_good; auto; lia. Qed.
+Lemma zbody_good_m i s : PZ i -> good nz nx M' grad s -> good nz nx M' grad (B' i s).
+Proof. intros (P1 & P2 & P3 & P4) Hs. rewrite zbody_l. cbv zeta. apply lbody_good; auto; lia. Qed.
+
+Lemma zbody_sw_agree i s : PZ i -> good nz nx M grad s ->
+  agree nz nx grad Top Top (B i s) (Bsw i s) /\ tdo (B i s) = tdo (Bsw i s) /\ good nz nx M grad (Bsw i s).
+Proof.
+  intros (P1 & P2 & P3 & P4) Hs. rewrite zbody_l, zbody_sw_l. cbv zeta.
+  split; [|split].
+  - apply (lbody_swap nz nx M); auto; lia.
+  - apply (lbody_swap nz nx M); auto; lia.
+  - apply lbody_good; auto; lia.
+Qed.
+
+Lemma zbody_sw_mirror_x_step i s s' : PZ i ->
+  SimMx nz nx M M' grad (ip i) s s' -> SimMx nz nx M M' grad i (Bsw i s) (B' i s').
+Proof.
+  intros HP (Hs & Hs' & Htd & HT & HS).
+  split; [apply (zbody_sw_agree i s HP Hs)|]. split; [apply zbody_good_m; assumption|].
+  destruct HP as (Hi & Hip & Hne & Hvr).
+  destruct s as [[td tt] sg], s' as [[td' tt'] sg'].
+  destruct Hs as ((Wd & Sd) & _), Hs' as ((Wd' & Sd') & _).
+  unfold XRelS, tdo, tto, sgo in *. cbn [fst snd] in *.
+  cbv beta zeta delta [zbody zbody_sw]. cbn [fst snd].
+  change (@nofZ R NumR 0) with 0%R.
+  set (vref := get 0%R slow [vr i; xsi]).
+  assert (Ev : get 0%R slow' [vr i; xsi'] = vref).
+  { apply (arel_get 0%R _ _ _ slow slow' [vr i; xsi] [vr i; xsi'] HSL); [apply dom2_intro; lia | unfold fmx; idx_eq]. }
+  rewrite Ev, Htd.
+  set (v := nadd (get 0%R td [ip i]) (nmul dz vref)).
+  rewrite (get1_set_same td M i v Wd Sd ltac:(lia)), (get1_set_same td' M' i v Wd' Sd' ltac:(lia)).
+  rewrite (get1_set_other td M i (ip i) v Sd ltac:(lia) ltac:(lia) ltac:(lia)).
+  rewrite (get1_set_other td' M' i (ip i) v Sd' ltac:(lia) ltac:(lia) ltac:(lia)).
+  rewrite Htd.
+  set (taue := nsub v _). set (tauev := nsub (get 0%R td [ip i]) _).
+  set (tdn := set td [i] v). set (tdn' := set td' [i] v).
+  assert (Htdn : get 0%R tdn' [i] = get 0%R tdn [i]).
+  { unfold tdn, tdn'. rewrite (get1_set_same td M i v Wd Sd ltac:(lia)).
+    rewrite (get1_set_same td' M' i v Wd' Sd' ltac:(lia)). reflexivity. }
+  split; [first [exact Htdn | reflexivity]|].
+  destruct (blk_z_mirror_x nz nx dx dz grad vzero xsa xsa' zsa dzi dz2i xsi (xsi' + 1) dxw sgz (-1) (ip i) i
+              vref taue tauev tdn tdn' tt tt' sg sg' HT HS ltac:(lia) Hi Hip ltac:(lia) Exsa Htdn) as [HT1 HS1].
+  match type of HT1 with RelTTx _ _ (fst ?b) (fst ?b') => set (B1 := b) in *; set (B1' := b') in * end.
+  destruct (blk_z_mirror_x nz nx dx dz grad vzero xsa xsa' zsa dzi dz2i (xsi + 1) xsi' dxe sgz 1 (ip i) i
+              vref taue tauev tdn tdn' (fst B1) (fst B1') (snd B1) (snd B1') HT1 HS1 ltac:(lia) Hi Hip ltac:(lia) Exsa Htdn)
+    as [HT2 HS2].
+  split; [exact HT2 | exact HS2].
+Qed.
+
+(* one iteration of a z-loop on the mirrored problem is the mirror of the iteration *)
+Lemma zbody_mirror_x_step i s s' : PZ i ->
+  SimMx nz nx M M' grad (ip i) s s' -> SimMx nz nx M M' grad i (B i s) (B' i s').
+Proof.
+  intros HP H. pose proof H as (Hs & Hs' & _).
+  destruct (zbody_sw_mirror_x_step i s s' HP H) as (G1 & G2 & Htd & HX).
+  destruct (zbody_sw_agree i s HP Hs) as (A & Etd & _).
+  split; [apply zbody_good_o; assumption|]. split; [exact G2|]. split; [rewrite Etd; exact Htd|].
+  apply (XRelS_ext nz nx M M' grad (Bsw i s) (B' i s') (B i s) (B' i s') HX);
+    [apply zbody_good_o; assumption | exact G2 | apply agree_sym, A | apply agree_refl].
+Qed.
+
+Lemma zloop_mirror_x l : forall p s s', chain ip p l -> (forall k, In k l -> PZ k) ->
+  SimMx nz nx M M' grad p s s' -> XRelS nz nx grad (for_list l B s) (for_list l B' s').
+Proof.
+  induction l as [|k l IH]; intros p s s' Hc HP H; [apply H|]. rewrite !for_list_cons.
+  destruct Hc as [Ep Hc]. rewrite <- Ep in H.
+  apply (IH k _ _ Hc (fun q Hq => HP q (or_intror Hq))).
+  apply zbody_mirror_x_step; [apply HP; left; reflexivity | exact H].
+Qed.
+
+Lemma zphase_mirror_x l p0 (c : R) s s' :
+  0 <= p0 < nz -> chain ip p0 l -> (forall k, In k l -> PZ k) ->
+  good nz nx M grad s -> good nz nx M' grad s' -> XRelS nz nx grad s s' ->
+  XRelS nz nx grad (for_list l B (set (tdo s) [p0] c, tto s, sgo s)) (for_list l B' (set (tdo s') [p0] c, tto s', sgo s')).
+Proof.
+  intros Hp Hc HP Hs Hs' HX. apply (zloop_mirror_x l p0 _ _ Hc HP).
+  split; [apply good_seed, Hs|]. split; [apply good_seed, Hs'|]. split; [|exact HX].
+  destruct Hs as ((Wd & Sd) & _), Hs' as ((Wd' & Sd') & _). cbn [tdo fst].
+  rewrite (get1_set_same _ M p0 c Wd Sd ltac:(lia)), (get1_set_same _ M' p0 c Wd' Sd' ltac:(lia)). reflexivity.
+Qed.
+End ZMirrorX.
+
+(* the pairings on states *)
+Theorem down_mirror_x nz nx M M' (dx dz : R) grad slow slow' (vzero xsa xsa' : R) xsi xsi' (zsa : R) zsi (dxw dxe dzd : R) s s' :
+  RelSLx nz nx slow slow' -> nz <= M /\ nz <= M' -> 0 <= zsi < nz - 1 -> 0 <= xsi < nx - 1 ->
+  xsa' = (IZR (nx - 1) - xsa)%R -> xsi' = nx - 2 - xsi ->
+  good nz nx M grad s -> good nz nx M' grad s' -> XRelS nz nx grad s s' ->
+  XRelS nz nx grad (down_phase dx dz grad nz slow vzero xsa xsi zsa zsi dxw dxe dzd s)
+                   (down_phase dx dz grad nz slow' vzero xsa' xsi' zsa zsi dxe dxw dzd s').
+Proof.
+  intros HSL HM Hz Hx Exsa Exsi Hs Hs' HX.
+  refine (zphase_mirror_x nz nx M M' grad (fun i => i - 1) (fun i => i - 1) adjm 1 dx dz slow slow' vzero xsa xsa' zsa
+            xsi xsi' dxw dxe (ndiv (nofZ 1) dz) (ndiv (ndiv (nofZ 1) dz) dz) HSL HM Hx Exsa Exsi
+            (pyrange (zsi + 2) nz 1) (zsi + 1) (nmul (nmul vzero dzd) dz) s s' _ _ _ Hs Hs' HX).
+  - lia.
+  - replace (zsi + 1) with (zsi + 2 - 1) by lia. apply chain_pyrange_up.
+  - intros k Hk. apply in_pyrange_up in Hk. unfold PZ. lia.
+Qed.
+Theorem up_mirror_x nz nx M M' (dx dz : R) grad slow slow' (vzero xsa xsa' : R) xsi xsi' (zsa : R) zsi (dxw dxe dzu : R) s s' :
+  RelSLx nz nx slow slow' -> nz <= M /\ nz <= M' -> 0 <= zsi < nz - 1 -> 0 <= xsi < nx - 1 ->
+  xsa' = (IZR (nx - 1) - xsa)%R -> xsi' = nx - 2 - xsi ->
+  good nz nx M grad s -> good nz nx M' grad s' -> XRelS nz nx grad s s' ->
+  XRelS nz nx grad (up_phase dx dz grad slow vzero xsa xsi zsa zsi dxw dxe dzu s)
+                   (up_phase dx dz grad slow' vzero xsa' xsi' zsa zsi dxe dxw dzu s').
+Proof.
+  intros HSL HM Hz Hx Exsa Exsi Hs Hs' HX.
+  refine (zphase_mirror_x nz nx M M' grad (fun i => i + 1) (fun i => i) adjp (-1) dx dz slow slow' vzero xsa xsa' zsa
+            xsi xsi' dxw dxe (ndiv (nofZ 1) dz) (ndiv (ndiv (nofZ 1) dz) dz) HSL HM Hx Exsa Exsi
+            (pyrange (zsi - 1) (-1) (-1)) zsi (nmul (nmul vzero dzu) dz) s s' _ _ _ Hs Hs' HX).
+  - lia.
+  - replace zsi with (zsi - 1 + 1) at 1 by lia. apply chain_pyrange_down.
+  - intros k Hk. apply in_pyrange_down in Hk. unfold PZ. lia.
+Qed.
+Lemma pair_east_west_x nz nx M M' (dx dz : R) grad slow slow' (vzero xsa xsa' : R) xsi xsi' (zsa : R) zsi (dzu dzd dxe : R) s s' :
+  RelSLx nz nx slow slow' -> nx <= M -> nx <= M' -> 0 <= zsi < nz - 1 -> 0 <= xsi < nx - 1 ->
+  xsa' = (IZR (nx - 1) - xsa)%R -> xsi' = nx - 2 - xsi ->
+  good nz nx M grad s -> good nz nx M' grad s' -> XRelS nz nx grad s s' ->
+  XRelS nz nx grad (east_phase dx dz grad nx slow vzero xsa xsi zsa zsi dzu dzd dxe s)
+                   (west_phase dx dz grad slow' vzero xsa' xsi' zsa zsi dzu dzd dxe s').
+Proof.
+  destruct s as [[td tt] sg], s' as [[td' tt'] sg'].
+  intros HSL HM HM' Hz Hx Exsa Exsi ((Wd & Sd) & _) ((Wd' & Sd') & _) [A B].
+  exact (west_is_mirror_of_east nz nx M M' dx dz grad slow slow' vzero xsa xsa' xsi xsi' zsa zsi dzu dzd dxe td td' tt tt'
+           sg sg' HSL Wd Wd' Sd Sd' HM HM' Hz Hx Exsa Exsi A B).
+Qed.
+
+Section MirrorX.
+Variables (nz nx M M' : Z) (grad : bool).
+Variables (dx dz : R) (slow slow' : arr R) (vzero xsa xsa' zsa : R) (zsi xsi xsi' : Z) (dzu dzd dxw dxe : R).
+Hypothesis HM : nx <= M /\ nz <= M.
+Hypothesis HM' : nx <= M' /\ nz <= M'.
+Hypothesis Hzsi : 0 <= zsi < nz - 1.
+Hypothesis Hxsi : 0 <= xsi < nx - 1.
+Hypothesis HSL : RelSLx nz nx slow slow'.
+Hypothesis Exsa : xsa' = (IZR (nx - 1) - xsa)%R.
+Hypothesis Exsi : xsi' = nx - 2 - xsi.
+
+Notation E := (east_phase dx dz grad nx slow vzero xsa xsi zsa zsi dzu dzd dxe).
+Notation W := (west_phase dx dz grad slow vzero xsa xsi zsa zsi dzu dzd dxw).
+Notation D := (down_phase dx dz grad nz slow vzero xsa xsi zsa zsi dxw dxe dzd).
+Notation U := (up_phase dx dz grad slow vzero xsa xsi zsa zsi dxw dxe dzu).
+(* the phases of the mirrored run: dxw and dxe exchanged *)
+Notation E' := (east_phase dx dz grad nx slow' vzero xsa' xsi' zsa zsi dzu dzd dxw).
+Notation W' := (west_phase dx dz grad slow' vzero xsa' xsi' zsa zsi dzu dzd dxe).
+Notation D' := (down_phase dx dz grad nz slow' vzero xsa' xsi' zsa zsi dxe dxw dzd).
+Notation U' := (up_phase dx dz grad slow' vzero xsa' xsi' zsa zsi dxe dxw dzu).
+
+Lemma wexz_mirror_x s s' :
+  good nz nx M grad s -> good nz nx M' grad s' -> XRelS nz nx grad s s' ->
+  XRelS nz nx grad (U (D (E (W s)))) (U' (D' (W' (E' s')))).
+Proof.
+  intros Hs Hs' H0.
+  pose proof (RelSLx_sym _ _ _ _ HSL) as HSL'.
+  assert (Exsa2 : xsa = (IZR (nx - 1) - xsa')%R) by (rewrite Exsa; ring).
+  assert (Exsi2 : xsi = nx - 2 - xsi') by lia.
+  (* west / east' *)
+  assert (H1 : XRelS nz nx grad (W s) (E' s')).
+  { apply XRelS_sym.
+    apply (pair_east_west_x nz nx M' M dx dz grad slow' slow vzero xsa' xsa xsi' xsi zsa zsi dzu dzd dxw s' s);
+      [exact HSL' | lia | lia | lia | lia | exact Exsa2 | exact Exsi2 | gd | gd | apply XRelS_sym, H0]. }
+  (* east / west' *)
+  assert (H2 : XRelS nz nx grad (E (W s)) (W' (E' s'))).
+  { apply (pair_east_west_x nz nx M M'); [exact HSL | lia | lia | lia | lia | exact Exsa | exact Exsi | gd | gd | exact H1]. }
+  assert (H3 : XRelS nz nx grad (D (E (W s))) (D' (W' (E' s')))).
+  { apply (down_mirror_x nz nx M M'); [exact HSL | lia | lia | lia | exact Exsa | exact Exsi | gd | gd | exact H2]. }
+  apply (up_mirror_x nz nx M M'); [exact HSL | lia | lia | lia | exact Exsa | exact Exsi | gd | gd | exact H3].
+Qed.
+
+Notation P := (phases dx dz grad nx nz slow vzero xsa xsi zsa zsi dzu dzd dxw dxe).
+Notation P' := (phases dx dz grad nx nz slow' vzero xsa' xsi' zsa zsi dzu dzd dxe dxw).
+
+(* THE FOUR LOOPS OF THE X-MIRRORED RUN GIVE THE X-MIRROR OF THE FOUR LOOPS *)
+Theorem phases_mirror_x s s' :
+  good nz nx M grad s -> good nz nx M' grad s' -> XRelS nz nx grad s s' -> XRelS nz nx grad (P s) (P' s').
+Proof.
+  intros Hs Hs' H0.
+  apply (XRelS_ext nz nx M M' grad _ _ _ _ (wexz_mirror_x s s' Hs Hs' H0)).
+  - apply phases_good; assumption.
+  - apply phases_good; try assumption; lia.
+  - apply agree_sym. apply (phases_wexz nz nx M); assumption.
+  - apply agree_sym. apply (phases_xz nz nx M'); try assumption; lia.
+Qed.
+End MirrorX.
+
+Lemma isC_mirror_x nx zsi xsi xsi' i j : xsi' = nx - 2 - xsi -> isC zsi xsi' i (nx - 1 - j) = isC zsi xsi i j.
+Proof. intros ->. unfold isC. eqb_cases. Qed.
+Lemma t_anad_mirror_x_parts i j j' (dz dx zsa xsa xsa' v : R) :
+  (IZR j' - xsa' = - (IZR j - xsa))%R ->
+  fst (fst (t_anad i j' dz dx zsa xsa' v)) = fst (fst (t_anad i j dz dx zsa xsa v)) /\
+  snd (fst (t_anad i j' dz dx zsa xsa' v)) = snd (fst (t_anad i j dz dx zsa xsa v)) /\
+  snd (t_anad i j' dz dx zsa xsa' v) = (- snd (t_anad i j dz dx zsa xsa v))%R.
+Proof.
+  intros C. rewrite (t_anad_mirror_x i j j' dz dx zsa xsa xsa' v C).
+  destruct (t_anad i j dz dx zsa xsa v) as [[a b] c]. cbn [fst snd]. auto.
+Qed.
+
+Lemma corners_mirror_x nz nx (dx dz : R) grad (vzero xsa xsa' : R) xsi xsi' (zsa : R) zsi tt tt' tg tg' :
+  0 <= zsi < nz - 1 -> 0 <= xsi < nx - 1 -> xsa' = (IZR (nx - 1) - xsa)%R -> xsi' = nx - 2 - xsi ->
+  okT nz nx tt -> okT nz nx tt' -> RelTTx nz nx tt tt' ->
+  (grad = true -> okG nz nx tg /\ okG nz nx tg' /\ RelGRx nz nx tg tg') ->
+  let c := init_corners dx dz grad vzero xsa xsi zsa zsi tt tg in
+  let c' := init_corners dx dz grad vzero xsa' xsi' zsa zsi tt' tg' in
+  okT nz nx (fst c) /\ okT nz nx (fst c') /\ RelTTx nz nx (fst c) (fst c') /\
+  (grad = true -> okG nz nx (snd c) /\ okG nz nx (snd c') /\ RelGRx nz nx (snd c) (snd c')).
+Proof.
+  intros Hz Hx Exsa Exsi Ht Ht' HT HG c c'.
+  assert (Hx' : 0 <= xsi' < nx - 1) by lia.
+  destruct (init_corners_tt nz nx dx dz grad vzero xsa xsi zsa zsi tt tg Ht Hz Hx) as [O1 G1].
+  destruct (init_corners_tt nz nx dx dz grad vzero xsa' xsi' zsa zsi tt' tg' Ht' Hz Hx') as [O1' G1'].
+  fold c in O1, G1. fold c' in O1', G1'.
+  split; [exact O1|]. split; [exact O1'|]. split.
+  - apply RelTTx_intro; [exact O1 | exact O1'|]. intros i j Hi Hj.
+    rewrite (G1 i j Hi Hj), (G1' i (nx - 1 - j) Hi ltac:(lia)), (isC_mirror_x nx zsi xsi xsi' i j Exsi).
+    assert (C : (IZR (nx - 1 - j) - xsa' = - (IZR j - xsa))%R) by (subst xsa'; apply mir_coord).
+    destruct (t_anad_mirror_x_parts i j (nx - 1 - j) dz dx zsa xsa xsa' vzero C) as (-> & _ & _).
+    rewrite (relTTx_get nz nx tt tt' i j (nx - 1 - j) HT Hi Hj eq_refl). reflexivity.
+  - intros Hg. destruct (HG Hg) as (Og & Og' & HR). subst c c'. rewrite Hg.
+    destruct (init_corners_tg nz nx dx dz vzero xsa xsi zsa zsi tt tg Og Hz Hx) as [O2 G2].
+    destruct (init_corners_tg nz nx dx dz vzero xsa' xsi' zsa zsi tt' tg' Og' Hz Hx') as [O2' G2'].
+    split; [exact O2|]. split; [exact O2'|].
+    apply RelGRx_intro; [exact O2 | exact O2'|]. intros i j k Hi Hj Hk.
+    rewrite (G2 i j k Hi Hj Hk), (G2' i (nx - 1 - j) k Hi ltac:(lia) Hk), (isC_mirror_x nx zsi xsi xsi' i j Exsi).
+    assert (C : (IZR (nx - 1 - j) - xsa' = - (IZR j - xsa))%R) by (subst xsa'; apply mir_coord).
+    destruct (t_anad_mirror_x_parts i j (nx - 1 - j) dz dx zsa xsa xsa' vzero C) as (_ & -> & ->).
+    rewrite (relGRx_get nz nx tg tg' i j k HR Hi Hj Hk).
+    destruct (isC zsi xsi i j); [|reflexivity].
+    destruct (Z.eqb_spec k 0) as [->|N]; [reflexivity|]. replace k with 1 by lia. reflexivity.
+Qed.
+
+(* on the reals int() of an integer is that integer: the `iflag <> 2` branches of fteik2d round the source position *)
+Lemma Int_part_unique' (r : R) k : (IZR k <= r < IZR k + 1)%R -> Int_part r = k.
+Proof.
+  intros [H1 H2]. unfold Int_part.
+  assert (E : (k + 1)%Z = up r) by (apply tech_up; rewrite plus_IZR; lra). lia.
+Qed.
+Lemma Rtrunc_IZR' k : ntrunc (IZR k) = k.
+Proof.
+  cbn [ntrunc NumR]. unfold Rtrunc. destruct (Rle_dec 0 (IZR k)).
+  - apply Int_part_unique'; lra.
+  - rewrite <- opp_IZR. rewrite (Int_part_unique' (IZR (- k)) (- k)%Z); [lia | lra].
+Qed.
+Lemma ntrunc_mirror_int n k : ntrunc (IZR (n - 1) - IZR k)%R = n - 1 - ntrunc (IZR k).
+Proof. rewrite <- minus_IZR, !Rtrunc_IZR'. reflexivity. Qed.
+
+(* THE BLOCK ON THE X-MIRRORED PROBLEM GIVES THE X-MIRROR, for every `iflag`.  For `iflag = 2` the source must lie
+   in its cell (then the code's dxw, dxe are exchanged); for `iflag <> 2` the node written must be the mirror node
+   (true when xsa is an integer, `ntrunc_mirror_int`: fteik2d rounds xsa in these branches). *)
+Theorem fteik2d_p2_mirror_x nz nx (dx dz : R) grad iflag slow slow' tt tt' tg tg' sg sg' (vzero xsa xsa' : R) xsi xsi' (zsa : R) zsi :
+  (iflag = 2 -> 0 <= zsi < nz - 1 /\ 0 <= xsi < nx - 1 /\ (0 <= xsa - IZR xsi <= 1)%R) ->
+  (iflag <> 2 -> 0 <= ntrunc zsa < nz /\ 0 <= ntrunc xsa < nx /\ ntrunc xsa' = nx - 1 - ntrunc xsa) ->
+  xsa' = (IZR (nx - 1) - xsa)%R -> xsi' = nx - 2 - xsi ->
+  okT nz nx tt -> okT nz nx tt' ->
+  (grad = true -> okG nz nx tg /\ okG nz nx tg' /\ okS nz nx sg /\ okS nz nx sg') ->
+  RelSLx nz nx slow slow' -> RelTTx nz nx tt tt' ->
+  (grad = true -> RelGRx nz nx tg tg' /\ RelSGx nz nx sg sg') ->
+  let r := fteik2d_p2 dx dz grad iflag nx nz slow tt tg sg vzero xsa xsi zsa zsi in
+  let r' := fteik2d_p2 dx dz grad iflag nx nz slow' tt' tg' sg' vzero xsa' xsi' zsa zsi in
+  RelTTx nz nx (fst (fst r)) (fst (fst r')) /\
+  (grad = true -> RelGRx nz nx (snd (fst r)) (snd (fst r')) /\ RelSGx nz nx (snd r) (snd r')).
+Proof.
+  intros H2 Hn Exsa Exsi Ht Ht' Hok HSL HT HR r r'. subst r r'. destruct (Z.eq_dec iflag 2) as [->|N].
+  - destruct (H2 eq_refl) as (Hz & Hx & Hin).
+    destruct (corners_mirror_x nz nx dx dz grad vzero xsa xsa' xsi xsi' zsa zsi tt tt' tg tg' Hz Hx Exsa Exsi Ht Ht' HT)
+      as (O1 & O1' & HC & HGc).
+    { intros Hg. destruct (Hok Hg) as (? & ? & _), (HR Hg) as [? _]. auto. }
+    pose proof (mirrored_dxw_is_dxe nx xsa xsi Hin) as Em. cbv zeta in Em. rewrite <- Exsa, <- Exsi in Em.
+    destruct Em as [Em1 Em2].
+    rewrite !fteik2d_p2_phases. cbv zeta. cbn [fst snd]. rewrite Em2, Em1.
+    match goal with |- context [phases dx dz grad nx nz slow vzero xsa xsi zsa zsi ?dzu ?dzd ?dxw ?dxe ?s0] =>
+      match goal with |- context [phases dx dz grad nx nz slow' vzero xsa' xsi' zsa zsi _ _ _ _ ?s0'] =>
+        pose proof (phases_mirror_x nz nx (Z.max nz nx) (Z.max nz nx) grad dx dz slow slow' vzero xsa xsa' zsa zsi xsi xsi'
+                      dzu dzd dxw dxe ltac:(lia) ltac:(lia) Hz Hx HSL Exsa Exsi s0 s0') as PT end end.
+    destruct PT as [PT1 PT2].
+    + split; [apply okD_full; lia|]. split; [exact O1|]. intros Hg. apply (Hok Hg).
+    + split; [apply okD_full; lia|]. split; [exact O1'|]. intros Hg. apply (Hok Hg).
+    + split; [exact HC|]. intros Hg. apply (HR Hg).
+    + split; [exact PT1|]. intros Hg. split; [apply (HGc Hg) | apply (PT2 Hg)].
+  - rewrite !fteik2d_p2_decompose. apply Z.eqb_neq in N. rewrite N. cbn [fst snd].
+    destruct (Hn ltac:(lia)) as (Bz & Bx & Em). split; [|exact HR].
+    apply relTTx_set; assumption.
+Qed.
+
+Definition mirror_grad_x (nz nx : Z) (g : arr R) : arr R :=
+  tab3 nz nx 2 (fun i j k => if k =? 1 then Ropp (get 0%R g [i; nx - 1 - j; k]) else get 0%R g [i; nx - 1 - j; k]).
+Lemma mirror_grad_x_rel nz nx g : okG nz nx g -> RelGRx nz nx g (mirror_grad_x nz nx g).
+Proof.
+  intros Og. pose proof Og as [W S]. destruct (shape3_nonneg g _ _ _ W S).
+  apply RelGRx_intro; [exact Og | split; [apply wf_tab3; lia | reflexivity]|].
+  intros i j k Hi Hj Hk. unfold mirror_grad_x. rewrite get_tab3 by lia. rewrite fmx3_invol. reflexivity.
+Qed.
+
+(* reading the x-mirror relations cell by cell *)
+Lemma mirror_x_cells nz nx (grad : bool) (a a' g g' : arr R) (s s' : arr Z) :
+  RelTTx nz nx a a' -> (grad = true -> RelGRx nz nx g g' /\ RelSGx nz nx s s') ->
+  (forall i j, 0 <= i < nz -> 0 <= j < nx -> get 0%R a' [i; j] = get 0%R a [i; nx - 1 - j]) /\
+  (grad = true -> forall i j, 0 <= i < nz -> 0 <= j < nx ->
+     get 0%R g' [i; j; 0] = get 0%R g [i; nx - 1 - j; 0] /\
+     get 0%R g' [i; j; 1] = Ropp (get 0%R g [i; nx - 1 - j; 1]) /\
+     get 0 s' [i; j; 0] = get 0 s [i; nx - 1 - j; 0] /\
+     get 0 s' [i; j; 1] = - get 0 s [i; nx - 1 - j; 1]).
+Proof.
+  intros HT HR. split.
+  - intros i j Hi Hj. apply (relTTx_get nz nx _ _ i (nx - 1 - j) j HT); lia.
+  - intros G i j Hi Hj. destruct (HR G) as [HG HS].
+    pose proof (relGRx_get nz nx _ _ i (nx - 1 - j) 0 HG Hi ltac:(lia) ltac:(lia)) as Q0.
+    pose proof (relGRx_get nz nx _ _ i (nx - 1 - j) 1 HG Hi ltac:(lia) ltac:(lia)) as Q1.
+    pose proof (relSGx_get nz nx _ _ i (nx - 1 - j) j 0 HS Hi ltac:(lia) ltac:(lia) ltac:(lia)) as Q2.
+    pose proof (relSGx_get nz nx _ _ i (nx - 1 - j) j 1 HS Hi ltac:(lia) ltac:(lia) ltac:(lia)) as Q3.
+    rewrite fmx3_invol in Q0, Q1.
+    split; [exact Q0|]. split; [exact Q1|]. split; [exact Q2 | exact Q3].
+Qed.
+
+(* EXPLICIT FORM of the x-mirror *)
+Theorem fteik2d_p2_mirror_x_explicit nz nx (dx dz : R) grad iflag slow tt tg tg' sg sg' (vzero xsa : R) xsi (zsa : R) zsi :
+  (iflag = 2 -> 0 <= zsi < nz - 1 /\ 0 <= xsi < nx - 1 /\ (0 <= xsa - IZR xsi <= 1)%R) ->
+  (iflag <> 2 -> 0 <= ntrunc zsa < nz /\ 0 <= ntrunc xsa < nx /\ exists k, xsa = IZR k) ->
+  wf slow -> shape slow = [nz - 1; nx - 1] -> okT nz nx tt ->
+  (grad = true -> okG nz nx tg /\ okS nz nx sg /\ tg' = mirror_grad_x nz nx tg /\ sg' = mirror_sgn_x nz nx sg) ->
+  let r := fteik2d_p2 dx dz grad iflag nx nz slow tt tg sg vzero xsa xsi zsa zsi in
+  let r' := fteik2d_p2 dx dz grad iflag nx nz (mirror_x (nz - 1) (nx - 1) slow) (mirror_x nz nx tt) tg' sg'
+              vzero (IZR (nx - 1) - xsa)%R (nx - 2 - xsi) zsa zsi in
+  (forall i j, 0 <= i < nz -> 0 <= j < nx -> get 0%R (fst (fst r')) [i; j] = get 0%R (fst (fst r)) [i; nx - 1 - j]) /\
+  (grad = true -> forall i j, 0 <= i < nz -> 0 <= j < nx ->
+     get 0%R (snd (fst r')) [i; j; 0] = get 0%R (snd (fst r)) [i; nx - 1 - j; 0] /\
+     get 0%R (snd (fst r')) [i; j; 1] = Ropp (get 0%R (snd (fst r)) [i; nx - 1 - j; 1]) /\
+     get 0 (snd r') [i; j; 0] = get 0 (snd r) [i; nx - 1 - j; 0] /\
+     get 0 (snd r') [i; j; 1] = - get 0 (snd r) [i; nx - 1 - j; 1]).
+Proof.
+  intros H2 Hn Wsl Ssl Ht Hg r r'. destruct (okT_nonneg _ _ _ Ht) as [N1 N2]. pose proof Ht as [Wt St].
+  assert (Hn' : iflag <> 2 -> 0 <= ntrunc zsa < nz /\ 0 <= ntrunc xsa < nx /\
+                 ntrunc (IZR (nx - 1) - xsa)%R = nx - 1 - ntrunc xsa).
+  { intros N. destruct (Hn N) as (? & ? & k & Ek). split; [assumption|]. split; [assumption|].
+    rewrite Ek. apply ntrunc_mirror_int. }
+  assert (H : RelTTx nz nx (fst (fst r)) (fst (fst r')) /\
+              (grad = true -> RelGRx nz nx (snd (fst r)) (snd (fst r')) /\ RelSGx nz nx (snd r) (snd r'))).
+  { apply (fteik2d_p2_mirror_x nz nx dx dz grad iflag slow (mirror_x (nz - 1) (nx - 1) slow) tt (mirror_x nz nx tt)
+              tg tg' sg sg' vzero xsa (IZR (nx - 1) - xsa)%R xsi (nx - 2 - xsi) zsa zsi H2 Hn' eq_refl eq_refl Ht).
+    - split; [apply wf_tab2; lia | reflexivity].
+    - intros G. destruct (Hg G) as (? & ? & -> & ->).
+      split; [assumption|]. split; [split; [apply wf_tab3; lia | reflexivity]|].
+      split; [assumption | split; [apply wf_tab3; lia | reflexivity]].
+    - apply mirror_x_slow_rel; assumption.
+    - apply mirror_x_rel; assumption.
+    - intros G. destruct (Hg G) as (Og & [Ws Ss] & -> & ->).
+      split; [apply mirror_grad_x_rel, Og | apply mirror_sgn_x_rel; assumption]. }
+  clearbody r r'. exact (mirror_x_cells nz nx grad _ _ _ _ _ _ (proj1 H) (proj2 H)).
+Qed.
+
+(* ========================================================================================== *)
+(* 8. Z-MIRROR = transposition o x-mirror o transposition                                       *)
+(* ========================================================================================== *)
+Lemma RelTTz_intro nz nx a a' :
+  okT nz nx a -> okT nz nx a' ->
+  (forall i j, 0 <= i < nz -> 0 <= j < nx -> get 0%R a' [nz - 1 - i; j] = get 0%R a [i; j]) -> RelTTz nz nx a a'.
+Proof.
+  intros [W S] [W' S'] H. split; [exact W|]. split; [exact W'|]. split; intros ix Hd; dom_inv; cbn [fmz gid].
+  - split; inb_tac.
+  - apply H; assumption.
+Qed.
+Lemma RelSGz_intro nz nx a a' :
+  okS nz nx a -> okS nz nx a' ->
+  (forall i j k, 0 <= i < nz -> 0 <= j < nx -> 0 <= k < 2 ->
+     get 0 a' [nz - 1 - i; j; k] = if k =? 0 then - get 0 a [i; j; k] else get 0 a [i; j; k]) ->
+  RelSGz nz nx a a'.
+Proof.
+  intros [W S] [W' S'] H. split; [exact W|]. split; [exact W'|]. split; intros ix Hd; dom_inv; cbn [fmz gneg].
+  - split; inb_tac.
+  - apply H; assumption.
+Qed.
+Lemma RelGRz_intro nz nx a a' :
+  okG nz nx a -> okG nz nx a' ->
+  (forall i j k, 0 <= i < nz -> 0 <= j < nx -> 0 <= k < 2 ->
+     get 0%R a' [nz - 1 - i; j; k] = if k =? 0 then Ropp (get 0%R a [i; j; k]) else get 0%R a [i; j; k]) ->
+  RelGRz nz nx a a'.
+Proof.
+  intros [W S] [W' S'] H. split; [exact W|]. split; [exact W'|]. split; intros ix Hd; dom_inv; cbn [fmz gnegR].
+  - split; inb_tac.
+  - apply H; assumption.
+Qed.
+Lemma relGRz_get nz nx s s' i j k :
+  RelGRz nz nx s s' -> 0 <= i < nz -> 0 <= j < nx -> 0 <= k < 2 ->
+  get 0%R s' [nz - 1 - i; j; k] = if k =? 0 then Ropp (get 0%R s [i; j; k]) else get 0%R s [i; j; k].
+Proof. intros H Hi Hj Hk. exact (arel_get 0%R _ _ _ s s' [i; j; k] _ H (dom3_intro _ _ _ _ _ Hi Hj Hk) eq_refl). Qed.
+
+Lemma get_transpose nz nx a i j : 0 <= i < nz -> 0 <= j < nx -> get 0%R (transpose nz nx a) [j; i] = get 0%R a [i; j].
+Proof. intros Hi Hj. unfold transpose. rewrite get_tab2 by lia. reflexivity. Qed.
+Lemma get_transpose_sgn nz nx a i j k :
+  0 <= i < nz -> 0 <= j < nx -> 0 <= k < 2 -> get 0 (transpose_sgn nz nx a) [j; i; k] = get 0 a [i; j; 1 - k].
+Proof. intros Hi Hj Hk. unfold transpose_sgn. rewrite get_tab3 by lia. reflexivity. Qed.
+Lemma get_transpose_grad nz nx a i j k :
+  0 <= i < nz -> 0 <= j < nx -> 0 <= k < 2 -> get 0%R (transpose_grad nz nx a) [j; i; k] = get 0%R a [i; j; 1 - k].
+Proof. intros Hi Hj Hk. unfold transpose_grad. rewrite get_tab3 by lia. reflexivity. Qed.
+
+(* the transposes of two z-mirror images are x-mirror images *)
+Lemma z_to_x_tt nz nx a a' :
+  0 <= nz -> 0 <= nx -> RelTTz nz nx a a' -> RelTTx nx nz (transpose nz nx a) (transpose nz nx a').
+Proof.
+  intros N1 N2 H. apply RelTTx_intro; try (apply okT_transpose; assumption).
+  intros j i Hj Hi. rewrite !get_transpose by lia. apply (relTTz_get nz nx a a' i (nz - 1 - i) j H); lia.
+Qed.
+Lemma z_to_x_sg nz nx a a' :
+  0 <= nz -> 0 <= nx -> RelSGz nz nx a a' -> RelSGx nx nz (transpose_sgn nz nx a) (transpose_sgn nz nx a').
+Proof.
+  intros N1 N2 H. apply RelSGx_intro; try (apply okS_transpose_sgn; assumption).
+  intros j i k Hj Hi Hk. rewrite !get_transpose_sgn by lia.
+  rewrite (relSGz_get nz nx a a' i (nz - 1 - i) j (1 - k) H) by lia.
+  destruct (Z.eqb_spec k 1) as [->|N]; [reflexivity|]. replace k with 0 by lia. reflexivity.
+Qed.
+Lemma z_to_x_gr nz nx a a' :
+  0 <= nz -> 0 <= nx -> RelGRz nz nx a a' -> RelGRx nx nz (transpose_grad nz nx a) (transpose_grad nz nx a').
+Proof.
+  intros N1 N2 H. apply RelGRx_intro; try (apply okG_transpose_grad; assumption).
+  intros j i k Hj Hi Hk. rewrite !get_transpose_grad by lia.
+  rewrite (relGRz_get nz nx a a' i j (1 - k) H) by lia.
+  destruct (Z.eqb_spec k 1) as [->|N]; [reflexivity|]. replace k with 0 by lia. reflexivity.
+Qed.
+
+(* ... and back *)
+Lemma txt_to_z_tt nz nx r r' rT rT' :
+  okT nz nx r -> okT nz nx r' -> RelTTt nz nx r rT -> RelTTt nz nx r' rT' -> RelTTx nx nz rT rT' -> RelTTz nz nx r r'.
+Proof.
+  intros O O' H1 H2 HX. apply RelTTz_intro; [exact O | exact O'|]. intros i j Hi Hj.
+  rewrite <- (relTTt_get nz nx r' rT' (nz - 1 - i) j H2) by lia.
+  rewrite (relTTx_get nx nz rT rT' j i (nz - 1 - i) HX) by lia.
+  apply (relTTt_get nz nx r rT i j H1); lia.
+Qed.
+Lemma txt_to_z_sg nz nx r r' rT rT' :
+  okS nz nx r -> okS nz nx r' -> RelSGt nz nx r rT -> RelSGt nz nx r' rT' -> RelSGx nx nz rT rT' -> RelSGz nz nx r r'.
+Proof.
+  intros O O' H1 H2 HX. apply RelSGz_intro; [exact O | exact O'|]. intros i j k Hi Hj Hk.
+  rewrite <- (relSGt_get nz nx r' rT' (nz - 1 - i) j k H2) by lia.
+  rewrite (relSGx_get nx nz rT rT' j i (nz - 1 - i) (1 - k) HX) by lia.
+  rewrite (relSGt_get nz nx r rT i j k H1) by lia.
+  destruct (Z.eqb_spec k 0) as [->|N]; [reflexivity|]. replace k with 1 by lia. reflexivity.
+Qed.
+Lemma txt_to_z_gr nz nx r r' rT rT' :
+  okG nz nx r -> okG nz nx r' -> RelGRt nz nx r rT -> RelGRt nz nx r' rT' -> RelGRx nx nz rT rT' -> RelGRz nz nx r r'.
+Proof.
+  intros O O' H1 H2 HX. apply RelGRz_intro; [exact O | exact O'|]. intros i j k Hi Hj Hk.
+  rewrite <- (relGRt_get nz nx r' rT' (nz - 1 - i) j k H2) by lia.
+  rewrite (relGRx_get nx nz rT rT' j i (1 - k) HX) by lia.
+  rewrite (relGRt_get nz nx r rT i j k H1) by lia.
+  destruct (Z.eqb_spec k 0) as [->|N]; [reflexivity|]. replace k with 1 by lia. reflexivity.
+Qed.
+
+(* THE BLOCK ON THE Z-MIRRORED PROBLEM GIVES THE Z-MIRROR, obtained by composing the two theorems above *)
+Theorem fteik2d_p2_mirror_z nz nx (dx dz : R) grad iflag slow slow' tt tt' tg tg' sg sg' (vzero xsa : R) xsi (zsa zsa' : R) zsi zsi' :
+  (iflag = 2 -> 0 <= zsi < nz - 1 /\ 0 <= xsi < nx - 1 /\ (0 <= zsa - IZR zsi <= 1)%R) ->
+  (iflag <> 2 -> 0 <= ntrunc zsa < nz /\ 0 <= ntrunc xsa < nx /\ ntrunc zsa' = nz - 1 - ntrunc zsa) ->
+  zsa' = (IZR (nz - 1) - zsa)%R -> zsi' = nz - 2 - zsi ->
+  okT (nz - 1) (nx - 1) slow -> okT (nz - 1) (nx - 1) slow' -> okT nz nx tt -> okT nz nx tt' ->
+  (grad = true -> okG nz nx tg /\ okG nz nx tg' /\ okS nz nx sg /\ okS nz nx sg') ->
+  RelSLz nz nx slow slow' -> RelTTz nz nx tt tt' ->
+  (grad = true -> RelGRz nz nx tg tg' /\ RelSGz nz nx sg sg') ->
+  let r := fteik2d_p2 dx dz grad iflag nx nz slow tt tg sg vzero xsa xsi zsa zsi in
+  let r' := fteik2d_p2 dx dz grad iflag nx nz slow' tt' tg' sg' vzero xsa xsi zsa' zsi' in
+  RelTTz nz nx (fst (fst r)) (fst (fst r')) /\
+  (grad = true -> RelGRz nz nx (snd (fst r)) (snd (fst r')) /\ RelSGz nz nx (snd r) (snd r')).
+Proof.
+  intros H2 Hn Ezsa Ezsi Osl Osl' Ht Ht' Hok HSL HT HR r r'.
+  destruct (okT_nonneg _ _ _ Ht) as [N1 N2]. destruct (okT_nonneg _ _ _ Osl) as [N3 N4].
+  (* the two transposed problems *)
+  set (slT := transpose (nz - 1) (nx - 1) slow). set (slT' := transpose (nz - 1) (nx - 1) slow').
+  set (ttT := transpose nz nx tt). set (ttT' := transpose nz nx tt').
+  set (tgT := transpose_grad nz nx tg). set (tgT' := transpose_grad nz nx tg').
+  set (sgT := transpose_sgn nz nx sg). set (sgT' := transpose_sgn nz nx sg').
+  assert (OkT : grad = true -> okG nz nx tg /\ okG nx nz tgT /\ okS nz nx sg /\ okS nx nz sgT).
+  { intros G. destruct (Hok G) as (? & ? & ? & ?).
+    split; [assumption|]. split; [apply okG_transpose_grad; lia|]. split; [assumption | apply okS_transpose_sgn; lia]. }
+  assert (OkT' : grad = true -> okG nz nx tg' /\ okG nx nz tgT' /\ okS nz nx sg' /\ okS nx nz sgT').
+  { intros G. destruct (Hok G) as (? & ? & ? & ?).
+    split; [assumption|]. split; [apply okG_transpose_grad; lia|]. split; [assumption | apply okS_transpose_sgn; lia]. }
+  assert (H2a : iflag = 2 -> 0 <= zsi < nz - 1 /\ 0 <= xsi < nx - 1) by (intros E; destruct (H2 E) as (? & ? & _); auto).
+  assert (H2b : iflag = 2 -> 0 <= zsi' < nz - 1 /\ 0 <= xsi < nx - 1) by (intros E; destruct (H2 E) as (? & ? & _); lia).
+  assert (Hna : iflag <> 2 -> 0 <= ntrunc zsa < nz /\ 0 <= ntrunc xsa < nx) by (intros E; destruct (Hn E) as (? & ? & _); auto).
+  assert (Hnb : iflag <> 2 -> 0 <= ntrunc zsa' < nz /\ 0 <= ntrunc xsa < nx) by (intros E; destruct (Hn E) as (? & ? & ?); lia).
+  (* original and its transpose *)
+  pose proof (fteik2d_p2_transpose nz nx dx dz grad iflag slow slT tt ttT tg tgT sg sgT vzero xsa xsi zsa zsi
+                H2a Hna Ht (okT_transpose nz nx tt N1 N2) OkT
+                (transpose_slow_rel nz nx slow (proj1 Osl) (proj2 Osl)) (transpose_rel nz nx tt (proj1 Ht) (proj2 Ht))) as T1.
+  (* mirrored and its transpose *)
+  pose proof (fteik2d_p2_transpose nz nx dx dz grad iflag slow' slT' tt' ttT' tg' tgT' sg' sgT' vzero xsa xsi zsa' zsi'
+                H2b Hnb Ht' (okT_transpose nz nx tt' N1 N2) OkT'
+                (transpose_slow_rel nz nx slow' (proj1 Osl') (proj2 Osl')) (transpose_rel nz nx tt' (proj1 Ht') (proj2 Ht'))) as T2.
+  (* the two transposed problems are x-mirror images *)
+  pose proof (fteik2d_p2_mirror_x nx nz dz dx grad iflag slT slT' ttT ttT' tgT tgT' sgT sgT' vzero zsa zsa' zsi zsi' xsa xsi) as X.
+  (* shapes of the four results *)
+  pose proof (fteik2d_p2_shapes nz nx dx dz grad iflag slow tt tg sg vzero xsa xsi zsa zsi H2a Ht) as S1.
+  pose proof (fteik2d_p2_shapes nz nx dx dz grad iflag slow' tt' tg' sg' vzero xsa xsi zsa' zsi' H2b Ht') as S2.
+  cbv zeta in T1, T2, X, S1, S2. fold r in T1, S1. fold r' in T2, S2.
+  match type of T1 with _ -> RelTTt _ _ _ (fst (fst ?a)) /\ _ => set (rT := a) in * end.
+  match type of T2 with _ -> RelTTt _ _ _ (fst (fst ?a)) /\ _ => set (rT' := a) in * end.
+  clearbody r r' rT rT'.
+  destruct T1 as [T1a T1b].
+  { intros G. destruct (OkT G) as (? & _ & ? & _). split; [apply transpose_grad_rel | apply transpose_sgn_rel]; tauto. }
+  destruct T2 as [T2a T2b].
+  { intros G. destruct (OkT' G) as (? & _ & ? & _). split; [apply transpose_grad_rel | apply transpose_sgn_rel]; tauto. }
+  destruct S1 as [S1a S1b]; [intros G; destruct (Hok G) as (? & ? & ? & ?); auto|].
+  destruct S2 as [S2a S2b]; [intros G; destruct (Hok G) as (? & ? & ? & ?); auto|].
+  destruct X as [Xa Xb].
+  - intros E. destruct (H2 E) as (? & ? & ?). auto.
+  - intros E. destruct (Hn E) as (? & ? & ?). auto.
+  - exact Ezsa.
+  - exact Ezsi.
+  - apply okT_transpose; assumption.
+  - apply okT_transpose; assumption.
+  - intros G. destruct (OkT G) as (_ & ? & _ & ?), (OkT' G) as (_ & ? & _ & ?). auto.
+  - apply (z_to_x_tt (nz - 1) (nx - 1) slow slow' N3 N4 HSL).
+  - apply (z_to_x_tt nz nx tt tt' N1 N2 HT).
+  - intros G. destruct (HR G) as [HGz HSz]. split; [apply z_to_x_gr | apply z_to_x_sg]; assumption.
+  - split; [apply (txt_to_z_tt nz nx _ _ _ _ S1a S2a T1a T2a Xa)|].
+    intros G. destruct (S1b G) as [? ?], (S2b G) as [? ?], (T1b G) as [? ?], (T2b G) as [? ?], (Xb G) as [? ?].
+    split; [eapply txt_to_z_gr | eapply txt_to_z_sg]; eassumption.
+Qed.
